@@ -700,7 +700,21 @@ impl Updater<'_> {
 
       for (vout, output_utxo_entry) in output_utxo_entries.into_iter().enumerate() {
         let vout = u32::try_from(vout).unwrap();
-        utxo_cache.insert(OutPoint { txid: *txid, vout }, output_utxo_entry);
+        let outpoint = OutPoint { txid: *txid, vout };
+
+        // A coinbase transaction may reuse the txid of an earlier coinbase
+        // transaction, displacing its unspent outputs. Remove the displaced
+        // entry now, otherwise it lingers in the table if the new output is
+        // spent from the cache before the next commit.
+        if tx_offset == 0
+          && let Some(displaced) = outpoint_to_utxo_entry.remove(&outpoint.store())?
+          && self.index.index_addresses
+        {
+          let script_pubkey = displaced.value().parse(self.index).script_pubkey();
+          script_pubkey_to_outpoint.remove(script_pubkey, outpoint.store())?;
+        }
+
+        utxo_cache.insert(outpoint, output_utxo_entry);
       }
     }
 
